@@ -18,3 +18,37 @@ distribution = poolcases.distribution
 def gen(rng, tier):
     n = {"quick": 120, "thorough": 1500, "search": 600}[tier]
     return [poolcases.gen_case(rng, npools=1 if i % 3 else 2) for i in range(n)]
+
+
+def extra(tier, rng, build_cache, known):
+    """A waiter that really is blocked (another thread) on a result that is not coming, while the pool
+    is stopped in two attempts (the first stop runs out of time with a task parked, the second
+    succeeds): the waiter must be given an error when the pool has stopped, not left to its timeout.
+    Real threads and real time, one case per child process."""
+    from .. import core
+    key = ((), False)
+    if key not in build_cache:
+        build_cache[key], _ = core.build_harness((), False)
+    n = 2 if tier == "quick" else 6
+    cases = [{"id": i, "clock": "0", "pools": [], "origin": "extra", "kind": "forced_stop",
+              "ops": [{"op": "forced_stop"}]} for i in range(n)]
+    res = core.run_harness(build_cache[key], AREA, cases, isolate=True, timeout_ms=40000, jobs=2)
+    viol, conclusive, settled = [], 0, 0
+    for c in cases:
+        r = res[c["id"]]
+        fs = r[0].get("forced_stop") if r and isinstance(r[0], dict) else None
+        if not fs or not fs.get("taken") or not fs.get("registered") or fs.get("first") != "timeout":
+            continue                      # the schedule was not reached (loaded machine): no verdict
+        conclusive += 1
+        if fs.get("second") != "ok" or fs.get("state") != "stopped":
+            viol.append({"case": c, "obs": r, "note": "the second stop, with the parked task long finished, did not succeed"})
+        elif fs.get("wait") != {"val": {"err": "stopped"}} or fs.get("late_ms", 10**9) > 1000:
+            viol.append({"case": c, "obs": r, "tags": ["waiter_unsettled_after_retried_stop"],
+                         "note": "the pool stopped and the blocked waiter was not told: wait=%s, %s ms after the stop"
+                                 % (fs.get("wait"), fs.get("late_ms"))})
+        else:
+            settled += 1
+    if not conclusive:
+        viol.append({"case": cases[0], "obs": res[cases[0]["id"]], "note": "forced stop schedule never reached"})
+    return {"info": {"forced_stop_runs": len(cases), "forced_stop_conclusive": conclusive,
+                     "forced_stop_waiter_settled": settled}, "violations": viol}
